@@ -3,4 +3,5 @@ NEXT Next
 INVARIANT ReadsOnlyAllowed
 INVARIANT ExtraExact
 INVARIANT AliasWins
+INVARIANT SiblingAliasOwn
 INVARIANT EmitInv
